@@ -666,6 +666,7 @@ pub fn run_property(p: &Property, tier: Tier, seed: u64, only_sub: Option<&str>)
     }
 
     // 3. the sub-checks
+    let mut inconclusive = false;
     for sub in &p.subs {
         if only_sub.map(|o| o != sub.name()).unwrap_or(false) {
             continue;
@@ -691,9 +692,12 @@ pub fn run_property(p: &Property, tier: Tier, seed: u64, only_sub: Option<&str>)
         total.merge(st);
         if let Some((fl, input)) = out.failure {
             if fl.sig.starts_with("harness-") || fl.sig == "flaky" {
+                // inconclusive for this sub-check; reproducible violations of the other
+                // sub-checks are still reported
                 eprintln!("harness problem in {}/{}: {} {}", p.id, sub.name(), fl.sig, fl.message);
-                write_evidence(p, tier, seed, &total, &per_sub, &known_lines, &notes, 0, t0);
-                return 2;
+                notes.push(format!("sub-check {} was inconclusive: {} {}", sub.name(), fl.sig, fl.message));
+                inconclusive = true;
+                continue;
             }
             let path = save_replay(p.id, &fl, &input, seed);
             // a second, case-level minimisation (token / document level) where the property offers one
@@ -715,6 +719,10 @@ pub fn run_property(p: &Property, tier: Tier, seed: u64, only_sub: Option<&str>)
     write_evidence(p, tier, seed, &total, &per_sub, &known_lines, &notes, violations.len(), t0);
     for l in &known_lines {
         println!("{}", l);
+    }
+    if violations.is_empty() && inconclusive {
+        println!("INCONCLUSIVE property={} tier={} seed={} (a sub-check could not reach a verdict; see the notes in the evidence file)", p.id, tier.name(), seed);
+        return 2;
     }
     if violations.is_empty() {
         println!(
